@@ -3,6 +3,7 @@ package main
 import (
 	"context"
 	"fmt"
+	"hash/fnv"
 	"io"
 	"math/rand"
 	"sort"
@@ -248,8 +249,22 @@ func newRig(e entry, fb, fac string, typedFactory bool) *routerRig {
 			opts = append(opts, router.WithFactory(f))
 		}
 	}
+	orderOptions(opts, fb+"/"+fac+"/"+e.Router)
 	g.r = e.New(opts...)
 	return g
+}
+
+// orderOptions permutes an option list (up to three options: all 6 orders) by a fixed function of the configuration
+// key: the order in which options are passed to NewRouter must not matter, and a replay must build the same router.
+func orderOptions(opts []router.Option, key string) {
+	h := fnv.New32a()
+	h.Write([]byte(key))
+	k := int(h.Sum32() % 720)
+	for i := len(opts) - 1; i > 0; i-- {
+		j := k % (i + 1)
+		k /= i + 1
+		opts[i], opts[j] = opts[j], opts[i]
+	}
 }
 
 func (g *routerRig) applyOps(ops string) error {
